@@ -114,6 +114,10 @@ def hist_cmode(rnd, sid, steps):
         else:
             paths = [x for x in inst_list(alive) if x[0] == top][0][2]
             ops.append({"op": "probe", "call": wcall([], top), "paths": paths})
+    # every third toggle is issued inside a raw_mode section (where users also set the rand_mode of scalar fields)
+    for j, op in enumerate(ops):
+        if op["op"] == "cmode" and j % 3 == 0:
+            op["raw"] = True
     return {"id": sid, "world": world, "ops": ops, "tags": []}
 
 
